@@ -186,6 +186,31 @@ theorem storeStatus_lookup (s : Store) (ns : List Nat) (v : Status) (j : Nat) :
       · right; exact ⟨by simp [hj], by rw [h, h']⟩
     · right; exact ⟨List.mem_cons_of_mem _ h1, h2⟩
 
+theorem storeStatus_faultFree (s : Store) (ns : List Nat) (v : Status) (hf : faultFree s = true) :
+    ∀ k ∈ ns, lookup (storeStatus s ns v).m k = v := by
+  induction ns generalizing s with
+  | nil => simp
+  | cons n r ih =>
+    have hstep : storeStatus s (n :: r) v = storeStatus (s.write n v).2 r v := by simp [storeStatus]
+    rw [hstep]
+    obtain ⟨m, fs⟩ := s
+    have hw : (Store.write ⟨m, fs⟩ n v).2.m = (n, v) :: m ∧ faultFree (Store.write ⟨m, fs⟩ n v).2 = true := by
+      rcases fs with _ | ⟨f, fr⟩
+      · simp [faultFree]
+      · cases f
+        · simp [faultFree] at hf ⊢; exact hf
+        · simp [faultFree] at hf
+    intro k hk
+    by_cases hkr : k ∈ r
+    · exact ih _ hw.2 k hkr
+    · have hkn : k = n := by
+        rcases List.mem_cons.1 hk with h | h
+        · exact h
+        · exact absurd h hkr
+      rcases storeStatus_lookup (Store.write ⟨m, fs⟩ n v).2 r v k with h | ⟨h, _⟩
+      · rw [h, hw.1, hkn]; simp [C03.lookup_cons]
+      · exact absurd h hkr
+
 theorem nodup_map_snd_inj (l : List (Nat × Nat)) (h : (l.map (·.2)).Nodup) (p q : Nat × Nat)
     (hp : p ∈ l) (hq : q ∈ l) (he : p.2 = q.2) : p = q := by
   induction l with
@@ -367,6 +392,12 @@ theorem stuck_pending_released (mt : Dep → Bool) (m : List (Nat × Status)) (d
     lookup (filterBy mt ⟨m, []⟩ [d]).2.m d.key = .failed ∧
     executable (filterBy mt ⟨m, []⟩ [d]).2.m [d.key] = [d.key] := by
   simp [filterBy, hm, isExecuted, hp, C03.lookup_cons, executable, canExec]
+
+/-- recording an outcome touches only the proposals of that execution, with the outcome's status; without store
+    faults all of them carry it (the form the driver evaluates on the real `watchExecution`) -/
+theorem outcome_P (s : Store) (ns : List Nat) (v : Status) (keys : List Nat) :
+    POutcome s.m (faultFree s) ns v (storeStatus s ns v).m keys :=
+  ⟨fun k _ => storeStatus_lookup s ns v k, fun hf => storeStatus_faultFree s ns v hf⟩
 
 /-- **C17 (c): executed is final.** From any state satisfying the invariant (in particular the initial one), along
     every sequential history — deliveries, recorded successes and failures, lost executions, retries, arbitrary
